@@ -409,6 +409,23 @@ pub fn run(args: &Args, rep: &mut Report) {
                 if !ok_sync || !ok_async {
                     rep.violation(P, "hash-uploader-vs-validator", "validators do not recompute the uploader's xorb hash", w(&format!("sync={ok_sync} async={ok_async}")));
                 }
+                // the same chunk data behind the legacy (version 0) footer, which both validators still accept
+                if let Ok(r) = refs::ref_parse_xorb_v1(&buf) {
+                    let chunk_end = *r.boundaries.last().unwrap() as usize;
+                    let mut v0 = buf[..chunk_end].to_vec();
+                    v0.extend_from_slice(&crate::e_xorb::v0_footer(&hb(&xh), &r.boundaries, &r.chunk_hashes));
+                    let v0_sync = xvcommon::catch(|| matches!(CasObject::validate_cas_object(&mut Cursor::new(&v0), &xh), Ok(Some(_))));
+                    let v0_async = xvcommon::catch(|| {
+                        rt.block_on(async {
+                            let mut r = futures::io::Cursor::new(&v0);
+                            matches!(cas_object::validate_cas_object_from_async_read(&mut r, &xh).await, Ok(Some(_)))
+                        })
+                    });
+                    if v0_sync != Ok(true) || v0_async != Ok(true) {
+                        rep.violation(P, "hash-uploader-vs-validator-v0", "validators do not recompute the uploader's xorb hash for a xorb with a legacy footer", w(&format!("sync={v0_sync:?} async={v0_async:?}")));
+                    }
+                    rep.count(P, "validator_agreements_legacy_footer", 1);
+                }
                 // ... and what they recompute is that hash and no other: a different claimed hash, or a footer
                 // recording a different hash, must not be accepted
                 let mut other = xh;
